@@ -196,7 +196,7 @@ def run(ctx):
     lim = pick(S, "status", guard_has=["maxiter"])
     key = f"{O}::_newton_cg <-> _static_newton_cg::iteration limit"
     if len(fo) == 1 and len(lim) == 1:
-        ctx.check(R, key, src(fo[0].iter).replace(" ", "") == "range(1,maxiter+1)" and lim[0][2] == "i" and "i == maxiter" in lim[0][3],
+        ctx.check(R, key, src(fo[0].iter).replace(" ", "") == "range(1,maxiter+1)" and lim[0][2] == "i" and ("i == maxiter" in lim[0][3] or "maxiter == i" in lim[0][3]),
                   f"eager {src(fo[0].iter)} | compiled {sorted(lim[0][3])}", s)
     else:
         ctx.und(R, key, "not found", e)
